@@ -134,6 +134,15 @@ func (concEngine) Gen(prop string, seed uint64, tier string) *Spec {
 		spec.Knobs["direct_task"] = int64(1 + rng.Intn(ncl-1))
 		spec.Knobs["direct_n"] = int64(rng.Intn(7))
 	}
+	if prop != "C14" && spec.Knobs["replace"] == 0 && spec.Knobs["flip"] == 0 && rng.Chance(0.04) {
+		// free-and-allocate family: one client frees the blocks of a small file inside
+		// its transaction (RENAME over it, REMOVE, truncation) while the others write
+		// blocks that their files do not have yet, with allocators that hand out the
+		// lowest free number: a block may change hands only when the free has
+		// committed
+		spec.Knobs["freealloc"] = 1
+		spec.Knobs["alloc_lowest"] = 1
+	}
 	if prop == "C01" {
 		// crash mode: the disk is cut off at points of the concurrent phase's write
 		// stream; all writes are stable, so every acknowledged operation must survive
@@ -327,6 +336,42 @@ func (concEngine) Gen(prop string, seed uint64, tier string) *Spec {
 				}
 			}
 			ops = append(ops, op)
+		}
+		if spec.Knobs["freealloc"] == 1 {
+			var script []Op
+			if c == 0 {
+				script = []Op{[]Op{
+					{K: "rename", H: slotD2, N: "b", H2: slotD1, N2: "a"},
+					{K: "rename", H: slotD1, N: "a", H2: slotD2, N2: "b"},
+					{K: "rename", H: slotD2, N: "b", H2: slotD1, N2: "a"},
+					{K: "remove", H: slotD1, N: "a"},
+					{K: "remove", H: slotD2, N: "b"},
+					{K: "setattr", H: slotF2, Off: 0},
+				}[rng.Intn(6)]}
+			} else {
+				for k := 0; k < 1+rng.Intn(2); k++ {
+					how := 1 + rng.Intn(2)
+					if prop == "C07" {
+						how = rng.Intn(3)
+					}
+					script = append(script, Op{K: "write", H: []int{slotBig, slotBig, slotF1, slotF2}[rng.Intn(4)], Off: uint64(1+rng.Intn(40)) * 4096,
+						Len: uint64(1 + rng.Intn(5000)), Pat: pat, How: how})
+					script[len(script)-1].Cnt = script[len(script)-1].Len
+					pat++
+				}
+			}
+			if len(ops) > 1 {
+				ops = ops[:1]
+			}
+			for i := range ops {
+				if ops[i].H >= 0 {
+					ops[i].H += len(script)
+				}
+				if ops[i].K == "rename" && ops[i].H2 >= 0 {
+					ops[i].H2 += len(script)
+				}
+			}
+			ops = append(script, ops...)
 		}
 		if spec.Knobs["flip"] == 1 && c < 2 {
 			var script []Op
